@@ -21,6 +21,37 @@
 //   - var initialisers and init() are not helper invocations; a function literal inside the
 //     initialiser of a package-level variable (the New function of a sync.Pool) counts as called by
 //     whoever mentions the variable
+//
+// Shared mutable objects behind a variable (added for seeded/C18-1, C18-2):
+//   - mutable reference type = pointer to a repository struct type that has a pointer-receiver method
+//     assigning to its receiver's fields (directly or through another method called on the receiver);
+//     an interface type counts when some repository type implementing it is such a type
+//   - handed-out object (location "*pkg.v", unsynchronised write): a package-level variable whose
+//     initialiser / declared type is a mutable reference type is mentioned as a value - returned, passed
+//     as an argument, stored in a field, a composite literal or another variable - i.e. anywhere else than
+//     as the base of a field selection / method call / index, an operand of == or !=, the operand of
+//     range / len / cap or a dereference.  Every caller then holds the same object and the mutating
+//     methods (SetLimit ...) are unsynchronised writes to it.  Not covered: maps, slices and pointers
+//     to types without mutating methods (exported fields written by callers); objects reached through
+//     a field of the variable
+//   - shared receiver types = the receiver types of the root methods, except types of which a function
+//     reachable from a root constructs a value by a composite literal (per-call objects such as the
+//     cursor wrapper returned by IterateValidIds); on the pinned tree: the store, boltz.BaseStore.
+//     Their fields are locations too ("boltz.BaseStore.field", one location per type, not per
+//     instance): every field selection on a value of such a type, in any function reachable from the
+//     helper, is a read, or a write when it is (the root of) an assignment target or the base of a
+//     call of a mutating method (repository method assigning to its receiver; for types outside the
+//     repository the method names Put Set Store Delete Clear Remove Add Append Swap CompareAndSwap
+//     LoadOrStore LoadAndDelete).  Synchronised as above; types of
+//     github.com/openziti/foundation/v2/concurrenz (CopyOnWriteMap, AtomicValue ...) count as
+//     synchronised containers
+//   - published value (location "<container location>[*]", unsynchronised write): a call of such a
+//     mutating method on a synchronised container rooted at a package-level variable or a field of a
+//     shared receiver type, with an argument whose static type is a mutable reference type: the
+//     container is safe, the value stored in it is now reachable by every concurrent caller and is
+//     mutable.  A cache written on a read path is therefore accepted only when what it stores is immutable
+//     by this definition (no mutating methods).  Not covered: values that are mutated by assignments
+//     from outside their own methods; caches hidden behind function-typed variables
 package main
 
 import (
@@ -56,9 +87,11 @@ type funcInfo struct {
 	accesses    []access
 	callees     map[*types.Func]bool
 	onceCallees map[*types.Func]bool
-	ifaceCalls  map[string]int // method name -> arity
+	ifaceCalls  map[string]int     // method name -> arity
 	varInits    map[*funcInfo]bool // function literals in the initialiser of a mentioned package-level variable
 	mutatesRecv bool
+	recvCallees map[*types.Func]bool     // methods called on the function's own receiver
+	constructs  map[*types.TypeName]bool // named types of the composite literals in the body
 }
 
 var (
@@ -66,7 +99,112 @@ var (
 	byName   = map[string][]*funcInfo{} // method name -> repository methods
 	repoPkgs = map[*types.Package]bool{}
 	varInit  = map[*types.Var][]*funcInfo{} // e.g. the New function of a sync.Pool
+
+	varInitType = map[*types.Var][]types.Type{}  // concrete type(s) of the initialiser of a package-level variable
+	sharedTypes = map[*types.TypeName]bool{}     // receiver types of the root methods
+	mutMethods  = map[*types.TypeName][]string{} // repository struct types -> their receiver-mutating methods
+	repoNamed   []*types.TypeName                // repository named types that have methods
 )
+
+var externalMutators = map[string]bool{"Put": true, "Set": true, "Store": true, "Delete": true, "Clear": true, "Remove": true,
+	"Add": true, "Append": true, "Swap": true, "CompareAndSwap": true, "LoadOrStore": true, "LoadAndDelete": true}
+
+func namedOf(t types.Type) *types.Named {
+	for {
+		if p, ok := t.(*types.Pointer); ok {
+			t = p.Elem()
+			continue
+		}
+		break
+	}
+	n, _ := t.(*types.Named)
+	return n
+}
+
+// concreteTypes: the dynamic types an interface-typed initialiser can have: the expression's own type
+// when it is not an interface; for a call of a repository function the types of the expressions it
+// returns (one level); otherwise the interface type itself (then every implementer counts)
+func concreteTypes(e ast.Expr, info *types.Info) []types.Type {
+	tv, ok := info.Types[e]
+	if !ok {
+		return nil
+	}
+	if _, isIface := tv.Type.Underlying().(*types.Interface); !isIface {
+		return []types.Type{tv.Type}
+	}
+	if call, ok := e.(*ast.CallExpr); ok {
+		var fn *types.Func
+		switch f := call.Fun.(type) {
+		case *ast.Ident:
+			fn, _ = info.Uses[f].(*types.Func)
+		case *ast.SelectorExpr:
+			fn, _ = info.Uses[f.Sel].(*types.Func)
+		}
+		if fn != nil {
+			if fi := funcs[fn.Origin()]; fi != nil {
+				var out []types.Type
+				known := true
+				ast.Inspect(fi.decl.Body, func(n ast.Node) bool {
+					if _, isLit := n.(*ast.FuncLit); isLit {
+						return false
+					}
+					if r, ok := n.(*ast.ReturnStmt); ok && len(r.Results) > 0 {
+						rt, ok := fi.pkg.TypesInfo.Types[r.Results[0]]
+						if !ok {
+							known = false
+						} else if _, isIface := rt.Type.Underlying().(*types.Interface); isIface {
+							known = false
+						} else {
+							out = append(out, rt.Type)
+						}
+					}
+					return true
+				})
+				if known && len(out) > 0 {
+					return out
+				}
+			}
+		}
+	}
+	return []types.Type{tv.Type}
+}
+
+// mutableRef: t is a mutable reference type (see the rules above); returns a witness method
+func mutableRef(t types.Type) (string, bool) {
+	if t == nil {
+		return "", false
+	}
+	if p, ok := t.(*types.Pointer); ok {
+		if n, ok := p.Elem().(*types.Named); ok {
+			if ms := mutMethods[n.Origin().Obj()]; len(ms) > 0 {
+				return ms[0], true
+			}
+		}
+		return "", false
+	}
+	if iface, ok := t.Underlying().(*types.Interface); ok {
+		best := ""
+		for _, tn := range repoNamed {
+			ms := mutMethods[tn]
+			if len(ms) == 0 {
+				continue
+			}
+			n, ok := tn.Type().(*types.Named)
+			if !ok || n.TypeParams().Len() > 0 {
+				continue
+			}
+			if types.Implements(types.NewPointer(n), iface) && iface.NumMethods() > 0 {
+				if best == "" || ms[0] < best {
+					best = ms[0]
+				}
+			}
+		}
+		if best != "" {
+			return best, true
+		}
+	}
+	return "", false
+}
 
 func isRepoVar(o types.Object) *types.Var {
 	v, ok := o.(*types.Var)
@@ -97,7 +235,7 @@ func isSyncType(t types.Type) bool {
 		return false
 	}
 	p := n.Obj().Pkg().Path()
-	return p == "sync" || p == "sync/atomic"
+	return p == "sync" || p == "sync/atomic" || p == "github.com/openziti/foundation/v2/concurrenz"
 }
 
 func funcName(f *types.Func) string {
@@ -124,6 +262,92 @@ type walker struct {
 	unlocks []token.Pos
 	deferUn bool
 	onceLit map[*ast.FuncLit]bool
+	parents map[ast.Node]ast.Node
+	recv    types.Object
+	fieldW  map[*ast.SelectorExpr]bool // field selections on a shared receiver type that are assignment targets
+}
+
+// sharedField: x selects a field of a value whose type is a shared receiver type
+func (w *walker) sharedField(x *ast.SelectorExpr) (string, bool) {
+	sel, ok := w.info.Selections[x]
+	if !ok || sel.Kind() != types.FieldVal {
+		return "", false
+	}
+	n := namedOf(sel.Recv())
+	if n == nil || !sharedTypes[n.Origin().Obj()] {
+		return "", false
+	}
+	return n.Obj().Pkg().Name() + "." + n.Obj().Name() + "." + x.Sel.Name, true
+}
+
+// innermostSharedField walks an lvalue / call base chain down to the first field selection on a shared type
+func (w *walker) innermostSharedField(e ast.Expr) *ast.SelectorExpr {
+	var found *ast.SelectorExpr
+	for {
+		switch x := e.(type) {
+		case *ast.ParenExpr:
+			e = x.X
+		case *ast.StarExpr:
+			e = x.X
+		case *ast.IndexExpr:
+			e = x.X
+		case *ast.SliceExpr:
+			e = x.X
+		case *ast.TypeAssertExpr:
+			e = x.X
+		case *ast.SelectorExpr:
+			if _, ok := w.sharedField(x); ok {
+				found = x
+			}
+			e = x.X
+		default:
+			return found
+		}
+	}
+}
+
+// escapes: the mention n of a package-level variable hands the variable's value on
+func (w *walker) escapes(n ast.Node) bool {
+	switch p := w.parents[n].(type) {
+	case *ast.ParenExpr:
+		return w.escapes(p)
+	case *ast.SelectorExpr:
+		return false
+	case *ast.IndexExpr:
+		return p.X != n
+	case *ast.SliceExpr:
+		return p.X != n
+	case *ast.StarExpr:
+		return false
+	case *ast.UnaryExpr:
+		return p.Op != token.AND // &v has its own rule
+	case *ast.BinaryExpr:
+		return !(p.Op == token.EQL || p.Op == token.NEQ)
+	case *ast.RangeStmt:
+		return p.X != n
+	case *ast.IncDecStmt:
+		return false
+	case *ast.AssignStmt:
+		for _, l := range p.Lhs {
+			if l == n {
+				return false
+			}
+		}
+		return true
+	case *ast.CallExpr:
+		if p.Fun == n {
+			return false
+		}
+		if id, ok := p.Fun.(*ast.Ident); ok {
+			if _, isBuiltin := w.info.Uses[id].(*types.Builtin); isBuiltin && (id.Name == "len" || id.Name == "cap") {
+				return false
+			}
+		}
+		return true
+	case *ast.ExprStmt:
+		return false
+	}
+	return true
 }
 
 // rootIdent returns the identifier an lvalue / selector chain is rooted at, and whether a field of a
@@ -204,17 +428,38 @@ func (w *walker) markWrite(e ast.Expr) {
 	if id, _ := w.rootIdent(e); id != nil {
 		w.writes[id] = true
 	}
+	if _, plain := e.(*ast.Ident); !plain {
+		if sf := w.innermostSharedField(e); sf != nil {
+			w.fieldW[sf] = true
+		}
+	}
 }
 
 func analyse(fi *funcInfo) {
 	body := fi.decl.Body
 	info := fi.pkg.TypesInfo
 	w := &walker{fi: fi, info: info, aliases: map[types.Object]*types.Var{}, writes: map[*ast.Ident]bool{},
-		addrOK: map[*ast.UnaryExpr]bool{}, onceLit: map[*ast.FuncLit]bool{}}
+		addrOK: map[*ast.UnaryExpr]bool{}, onceLit: map[*ast.FuncLit]bool{}, parents: map[ast.Node]ast.Node{},
+		fieldW: map[*ast.SelectorExpr]bool{}}
+	{
+		var stack []ast.Node
+		ast.Inspect(body, func(n ast.Node) bool {
+			if n == nil {
+				stack = stack[:len(stack)-1]
+				return true
+			}
+			if len(stack) > 0 {
+				w.parents[n] = stack[len(stack)-1]
+			}
+			stack = append(stack, n)
+			return true
+		})
+	}
 
 	// receiver mutation
 	if fi.decl.Recv != nil && len(fi.decl.Recv.List) == 1 && len(fi.decl.Recv.List[0].Names) == 1 {
 		recv := info.Defs[fi.decl.Recv.List[0].Names[0]]
+		w.recv = recv
 		if recv != nil {
 			if _, isPtr := recv.Type().(*types.Pointer); isPtr {
 				ast.Inspect(body, func(n ast.Node) bool {
@@ -244,6 +489,15 @@ func analyse(fi *funcInfo) {
 	// pass 1: aliases, write targets, lock regions, once literals
 	ast.Inspect(body, func(n ast.Node) bool {
 		switch x := n.(type) {
+		case *ast.CompositeLit:
+			if tv, ok := info.Types[x]; ok {
+				if nt := namedOf(tv.Type); nt != nil {
+					if fi.constructs == nil {
+						fi.constructs = map[*types.TypeName]bool{}
+					}
+					fi.constructs[nt.Origin().Obj()] = true
+				}
+			}
 		case *ast.AssignStmt:
 			for i, l := range x.Lhs {
 				// local alias:  p := &v   /   p := v (pointer typed)   /  p = &v
@@ -334,6 +588,72 @@ func analyse(fi *funcInfo) {
 		}
 		fi.accesses = append(fi.accesses, access{loc: locName(v), write: write, sync: s, via: fi.name})
 	}
+	recordLoc := func(loc string, pos token.Pos, write, s bool, via string) {
+		fi.accesses = append(fi.accesses, access{loc: loc, write: write, sync: s || w.guarded(pos) || len(inOnce) > 0, via: via})
+	}
+	// handed-out object: the mention n of variable v passes the (mutable) object on
+	handOut := func(n ast.Node, id *ast.Ident) {
+		obj := w.info.Uses[id]
+		v := isRepoVar(obj)
+		if v == nil || !w.escapes(n) {
+			return
+		}
+		ts := []types.Type{v.Type()}
+		if _, isIface := v.Type().Underlying().(*types.Interface); isIface && len(varInitType[v]) > 0 {
+			ts = varInitType[v]
+		}
+		for _, t := range ts {
+			if m, ok := mutableRef(t); ok {
+				fi.accesses = append(fi.accesses, access{loc: "*" + locName(v), write: true, sync: false, via: fi.name + " hands out the object; mutable through " + m})
+				break
+			}
+		}
+	}
+	// call of a mutating method on a container: base is the expression the method is selected on
+	mutatorCall := func(x *ast.CallExpr, f *ast.SelectorExpr, fn *types.Func) {
+		mutates := false
+		if cf := funcs[fn.Origin()]; cf != nil {
+			mutates = cf.mutatesRecv
+		} else if fn.Pkg() != nil && !repoPkgs[fn.Pkg()] {
+			mutates = externalMutators[fn.Name()]
+		}
+		if !mutates {
+			return
+		}
+		loc, s := "", false
+		if sf := w.innermostSharedField(f.X); sf != nil {
+			loc, _ = w.sharedField(sf)
+			if tv, ok := info.Types[sf]; ok && isSyncType(tv.Type) {
+				s = true
+			}
+			if tv, ok := info.Types[f.X]; ok && isSyncType(tv.Type) {
+				s = true
+			}
+			recordLoc(loc, x.Pos(), true, s, fi.name)
+			w.fieldW[sf] = true
+		} else if id, sy := w.rootIdent(f.X); id != nil && w.varOf(id) != nil {
+			v := w.varOf(id)
+			loc, s = locName(v), sy || isSyncType(v.Type())
+			if funcs[fn.Origin()] == nil { // repository methods are recorded by the older rule below
+				record(id, true, sy)
+				w.writes[id] = true
+			}
+		} else {
+			return
+		}
+		if !s && !w.guarded(x.Pos()) && len(inOnce) == 0 {
+			return // the container write itself is already an unsynchronised write
+		}
+		for _, a := range x.Args {
+			if tv, ok := info.Types[a]; ok {
+				if m, ok := mutableRef(tv.Type); ok {
+					fi.accesses = append(fi.accesses, access{loc: loc + "[*]", write: true, sync: false,
+						via: fi.name + " publishes a value mutable through " + m})
+					break
+				}
+			}
+		}
+	}
 	visit = func(n ast.Node) bool {
 		switch x := n.(type) {
 		case *ast.FuncLit:
@@ -363,6 +683,10 @@ func analyse(fi *funcInfo) {
 							fi.ifaceCalls[fn.Name()] = fn.Type().(*types.Signature).Params().Len()
 						} else {
 							fi.callees[fn.Origin()] = true
+							if rid, ok := f.X.(*ast.Ident); ok && w.recv != nil && info.Uses[rid] == w.recv {
+								fi.recvCallees[fn.Origin()] = true
+							}
+							mutatorCall(x, f, fn)
 							// pointer-receiver method of a repository type called on a package-level variable
 							if id, s := w.rootIdent(f.X); id != nil && w.varOf(id) != nil {
 								if cf := funcs[fn.Origin()]; cf != nil && cf.mutatesRecv {
@@ -377,8 +701,19 @@ func analyse(fi *funcInfo) {
 				}
 			}
 		case *ast.SelectorExpr:
+			// field of a shared receiver type (the store)
+			if loc, ok := w.sharedField(x); ok {
+				s := false
+				if tv, ok := info.Types[x]; ok && isSyncType(tv.Type) {
+					s = true
+				}
+				recordLoc(loc, x.Pos(), w.fieldW[x], s, fi.name)
+			}
 			// qualified identifier or field chain: handled at the root identifier, but remember sync fields
 			if id, s := w.rootIdent(x); id != nil && w.varOf(id) != nil {
+				if x.Sel == id {
+					handOut(x, id) // pkg.V mentioned as a value
+				}
 				if !w.writes[id] {
 					record(id, false, s)
 				} else {
@@ -400,6 +735,7 @@ func analyse(fi *funcInfo) {
 			}
 			if w.varOf(x) != nil {
 				record(x, w.writes[x], false)
+				handOut(x, x)
 			}
 		}
 		return true
@@ -453,7 +789,8 @@ func main() {
 					continue
 				}
 				fi := &funcInfo{obj: obj, name: funcName(obj), file: fname, decl: fd, pkg: p,
-					callees: map[*types.Func]bool{}, onceCallees: map[*types.Func]bool{}, ifaceCalls: map[string]int{}, varInits: map[*funcInfo]bool{}}
+					callees: map[*types.Func]bool{}, onceCallees: map[*types.Func]bool{}, ifaceCalls: map[string]int{}, varInits: map[*funcInfo]bool{},
+					recvCallees: map[*types.Func]bool{}}
 				funcs[obj] = fi
 				if fd.Recv != nil {
 					byName[obj.Name()] = append(byName[obj.Name()], fi)
@@ -481,13 +818,15 @@ func main() {
 						if v == nil || i >= len(vs.Values) {
 							continue
 						}
+						varInitType[v] = concreteTypes(vs.Values[i], p.TypesInfo)
 						k := 0
 						ast.Inspect(vs.Values[i], func(n ast.Node) bool {
 							if lit, ok := n.(*ast.FuncLit); ok {
 								k++
 								fi := &funcInfo{name: fmt.Sprintf("%s$init%d", locName(v), k), file: fname, pkg: p,
 									decl:    &ast.FuncDecl{Name: ast.NewIdent("init"), Type: lit.Type, Body: lit.Body},
-									callees: map[*types.Func]bool{}, onceCallees: map[*types.Func]bool{}, ifaceCalls: map[string]int{}, varInits: map[*funcInfo]bool{}}
+									callees: map[*types.Func]bool{}, onceCallees: map[*types.Func]bool{}, ifaceCalls: map[string]int{}, varInits: map[*funcInfo]bool{},
+									recvCallees: map[*types.Func]bool{}}
 								varInit[v] = append(varInit[v], fi)
 								pseudo = append(pseudo, fi)
 								return false
@@ -506,33 +845,95 @@ func main() {
 	}
 	order = append(order, pseudo...)
 	sort.Slice(order, func(i, j int) bool { return order[i].name < order[j].name })
+	// the receiver types of the root methods are the shared objects (the store)
+	for _, fi := range order {
+		if isRoot(fi) {
+			if r := fi.obj.Type().(*types.Signature).Recv(); r != nil {
+				if n := namedOf(r.Type()); n != nil {
+					sharedTypes[n.Origin().Obj()] = true
+				}
+			}
+		}
+	}
 	for _, fi := range order {
 		analyse(fi)
 	}
+	// ... unless a function reachable from a root constructs values of the type (a per-call object such
+	// as the cursor returned by IterateValidIds): then the first round is repeated without it
+	perCall := false
+	for _, r := range order {
+		if !isRoot(r) {
+			continue
+		}
+		for fi := range reachable(r) {
+			for tn := range fi.constructs {
+				if sharedTypes[tn] {
+					delete(sharedTypes, tn)
+					perCall = true
+				}
+			}
+		}
+	}
+	if perCall {
+		for _, fi := range order {
+			resetFunc(fi)
+			analyse(fi)
+		}
+	}
+	// a method that calls a receiver-mutating method on its own receiver mutates its receiver
+	for changed := true; changed; {
+		changed = false
+		for _, fi := range order {
+			if fi.mutatesRecv || fi.obj == nil {
+				continue
+			}
+			if r := fi.obj.Type().(*types.Signature).Recv(); r == nil {
+				continue
+			} else if _, isPtr := r.Type().(*types.Pointer); !isPtr {
+				continue
+			}
+			for fn := range fi.recvCallees {
+				if c := funcs[fn]; c != nil && c.mutatesRecv {
+					fi.mutatesRecv = true
+					changed = true
+				}
+			}
+		}
+	}
+	seenNamed := map[*types.TypeName]bool{}
 	for _, fi := range order {
-		fi.accesses = nil
-		fi.callees = map[*types.Func]bool{}
-		fi.onceCallees = map[*types.Func]bool{}
-		fi.ifaceCalls = map[string]int{}
-		fi.varInits = map[*funcInfo]bool{}
+		if fi.obj == nil {
+			continue
+		}
+		r := fi.obj.Type().(*types.Signature).Recv()
+		if r == nil {
+			continue
+		}
+		n := namedOf(r.Type())
+		if n == nil {
+			continue
+		}
+		tn := n.Origin().Obj()
+		if !seenNamed[tn] {
+			seenNamed[tn] = true
+			repoNamed = append(repoNamed, tn)
+		}
+		if _, isStruct := n.Underlying().(*types.Struct); isStruct && fi.mutatesRecv {
+			mutMethods[tn] = append(mutMethods[tn], fi.name)
+		}
+	}
+	for _, ms := range mutMethods {
+		sort.Strings(ms)
+	}
+	for _, fi := range order {
+		resetFunc(fi)
 		analyse(fi)
 	}
 
 	// roots
 	var roots []*funcInfo
 	for _, fi := range order {
-		if fi.obj == nil || !fi.obj.Exported() || fi.obj.Name() == "init" {
-			continue
-		}
-		recv := fi.obj.Type().(*types.Signature).Recv()
-		switch {
-		case fi.pkg.Name == "boltz" && fi.file == "errors.go" && recv == nil:
-			roots = append(roots, fi)
-		case fi.pkg.Name == "zitiql" && fi.file == "util.go" && recv == nil:
-			roots = append(roots, fi)
-		case fi.pkg.Name == "ast" && fi.file == "helper.go" && recv == nil:
-			roots = append(roots, fi)
-		case fi.pkg.Name == "boltz" && fi.file == "store_query.go" && recv != nil && isReaderName(fi.obj.Name()):
+		if isRoot(fi) {
 			roots = append(roots, fi)
 		}
 	}
@@ -566,6 +967,68 @@ func main() {
 	}
 	sb.WriteString("].\n")
 	fmt.Print(sb.String())
+}
+
+func resetFunc(fi *funcInfo) {
+	fi.accesses = nil
+	fi.callees = map[*types.Func]bool{}
+	fi.onceCallees = map[*types.Func]bool{}
+	fi.ifaceCalls = map[string]int{}
+	fi.varInits = map[*funcInfo]bool{}
+	fi.recvCallees = map[*types.Func]bool{}
+}
+
+// reachable: every function the call graph (same edges as closure) reaches from root
+func reachable(root *funcInfo) map[*funcInfo]bool {
+	seen := map[*funcInfo]bool{}
+	work := []*funcInfo{root}
+	for len(work) > 0 {
+		fi := work[len(work)-1]
+		work = work[:len(work)-1]
+		if seen[fi] {
+			continue
+		}
+		seen[fi] = true
+		for fn := range fi.callees {
+			if c := funcs[fn]; c != nil {
+				work = append(work, c)
+			}
+		}
+		for fn := range fi.onceCallees {
+			if c := funcs[fn]; c != nil {
+				work = append(work, c)
+			}
+		}
+		for lit := range fi.varInits {
+			work = append(work, lit)
+		}
+		for name, arity := range fi.ifaceCalls {
+			for _, c := range byName[name] {
+				if c.obj.Type().(*types.Signature).Params().Len() == arity {
+					work = append(work, c)
+				}
+			}
+		}
+	}
+	return seen
+}
+
+func isRoot(fi *funcInfo) bool {
+	if fi.obj == nil || !fi.obj.Exported() || fi.obj.Name() == "init" {
+		return false
+	}
+	recv := fi.obj.Type().(*types.Signature).Recv()
+	switch {
+	case fi.pkg.Name == "boltz" && fi.file == "errors.go" && recv == nil:
+		return true
+	case fi.pkg.Name == "zitiql" && fi.file == "util.go" && recv == nil:
+		return true
+	case fi.pkg.Name == "ast" && fi.file == "helper.go" && recv == nil:
+		return true
+	case fi.pkg.Name == "boltz" && fi.file == "store_query.go" && recv != nil && isReaderName(fi.obj.Name()):
+		return true
+	}
+	return false
 }
 
 func isReaderName(n string) bool {
